@@ -196,6 +196,15 @@ def sql_level(rep, scratch, rng, tier, dss, counts):
     for n in (2, 16):
         scen.append(("concurrent-first-use-%d" % n, ["SQLOPEN d1 fb lrucache=true&lrucachesize=1000 4", "SQLCONC c1 d1 %d %s" % (n, q), "SQLCLOSE d1", "SQLPROBE p1 fb",
                                                      "SQLOPEN d2 fb - 2", "SQLCONC c2 d2 %d %s" % (n, q), "SQLQ s9 d2 direct %s 1" % q, "ARGS 0", "SQLCLOSE d2", "SQLPROBE p2 fb"]))
+    # operator nodes (whose results go through the LRU cache) evaluated by many goroutines at once,
+    # and a prepared statement with a placeholder below a negation executed several times
+    qnn = core.enc_str(b'^ ^ a="1"')
+    qph = core.enc_str(b"^ ^ a = $1")
+    for n in (4, 16):
+        scen.append(("concurrent-cached-operators-%d" % n, ["SQLOPEN d1 fa lrucache=true&lrucachesize=100000 8", "SQLCONC c1 d1 %d %s" % (n, qnn), "SQLCONC c2 d1 %d %s" % (n, qnn),
+                                                           "SQLQ s1 d1 direct %s 1" % qnn, "ARGS 0", "SQLCLOSE d1", "SQLPROBE p1 fa"]))
+    scen.append(("prepared-placeholder-under-not", ["SQLOPEN d1 fa - 2", "SQLQ s1 d1 prepared %s 3" % qph, "ARGS 1 S 1 49", "ARGS 1 S 1 49", "ARGS 1 S 1 49",
+                                                    "SQLQ s2 d1 direct %s 2" % qph, "ARGS 1 S 1 49", "ARGS 1 S 1 49", "SQLCLOSE d1", "SQLPROBE p1 fa"]))
     for n, iters in ((8, 150), (16, 60)):
         scen.append(("open-query-close-churn-%d" % n, ["SQLCHURN ch fa preload=true %d %d %s" % (n, iters if tier == "quick" else iters * 5, q), "SQLPROBE p1 fa"]))
     for name, body in scen:
@@ -259,7 +268,7 @@ def run(rep, scratch, tier, seed, replay=None):
             rep.violation("obligation", "the generated lock obligation of C17 no longer checks (coq/obligations/ObC17.v); histories and concurrent first use found no failing schedule",
                           {"broken": "C17_locks / C17_single_section", "unknown_to_policy": ob.get("unknown_to_policy", ""), "coqc_output": ob["output"][-2500:]}, no_input=True)
     rep.coverage.update({
-        "evaluations": nh + 8, "distinct_nontrivial": len(set(tuple(o[0] for o in h[0]) for h in hist)),
+        "evaluations": nh + 11, "distinct_nontrivial": len(set(tuple(o[0] for o in h[0]) for h in hist)),
         "rule": "well-formed histories of 3..14 driver.Conn-level operations (Open / query / Close) over 2 index files x option strings %s (+ missing file, + invalid cache size), each in a fresh process, compared with DriverSM.d_run (result class per operation; a query must return the count of its own file); database/sql scenarios: reopen after the last close, the same file under two option strings, pool sizes 1,2,4, first use by 2 and 16 goroutines; after the last close a non-blocking flock must succeed. Non-trivial = distinct operation-kind sequences." % OPTS,
         "failures": nbad, "samples": [" ; ".join(" ".join(o) for o in hist[5][0])],
     })
